@@ -129,6 +129,8 @@ mod response;
 mod ssl;
 mod test;
 mod util;
+#[cfg(tiny_http_verif)]
+pub mod verif_rt;
 
 /// Window onto internal components for the external verification harness.
 /// Only compiled with `--cfg tiny_http_verif`; adds no code otherwise.
